@@ -129,8 +129,10 @@ fn c04_enter_count() {
     unsafe {
         env::E.enter_ret[0] = n;
     }
+    env::skip_wake_blocked_futures();
     let res = shared.enter(min_complete, flags, timeout);
     assert!(unsafe { env::E.enter_n } == 1, "exactly one io_uring_enter");
+    assert!(unsafe { env::E.wbf_calls } == 1, "a successful entry runs wake_blocked_futures");
     let call = unsafe { env::E.enters[0] };
     assert!(call.fd == RING_FD);
     assert!(call.min_complete == min_complete);
@@ -199,19 +201,21 @@ fn blocked_wake_case(nblocked: usize) {
 }
 
 #[kani::proof]
-#[kani::unwind(3)]
+#[kani::unwind(4)] // mem::swap of a Vec is a 3-iteration chunk loop in core
 fn c03_blocked_wake_1() {
     blocked_wake_case(1);
 }
 #[kani::proof]
-#[kani::unwind(3)]
+#[kani::unwind(4)] // mem::swap of a Vec is a 3-iteration chunk loop in core
 fn c03_blocked_wake_2() {
     blocked_wake_case(2);
     kani::cover!(env::total_wakes() == 1, "room for exactly one of two");
 }
 
 // =========================================================================================
-// C03  c03.enter.wakes: a successful kernel entry wakes a blocked future when there is room
+// C03  c03.enter.wakes — every kernel entry that returns successfully runs wake_blocked_futures exactly once
+//      (after the syscall, i.e. seeing the head the kernel advanced); ETIME/EINTR/hard errors do not.
+//      wake_blocked_futures itself is replaced by its contract here and proved by c03.blocked.*.
 // =========================================================================================
 #[kani::proof]
 #[kani::unwind(3)]
@@ -221,24 +225,31 @@ fn c03_enter_wakes() {
     let len: u32 = kani::any();
     kani::assume(ring_inv(h, t, len));
     let mut ring = FakeSq::<1>::new(h, t, 0);
-    ring.register_with_kernel();
-    let shared = ring.shared(len, false, false);
-    push_blocked(&shared, env::waker(1));
-    let consume: u32 = kani::any();
-    kani::assume(consume <= t.wrapping_sub(h));
+    let shared = ring.shared(len, kani::any(), false);
+    let ret: i32 = kani::any();
+    kani::assume(ret >= -1);
+    let errno: i32 = kani::any();
+    kani::assume(errno == libc::ETIME || errno == libc::EINTR || errno == libc::EBUSY || errno == libc::EAGAIN);
     unsafe {
-        env::E.enter_ret[0] = consume as i32;
-        env::E.enter_consume[0] = consume;
+        env::E.enter_ret[0] = ret;
+        env::E.enter_errno[0] = errno;
     }
-    kani::assume(consume <= i32::MAX as u32);
-    let res = shared.enter(0, 0, Some(Duration::ZERO));
-    assert!(res.is_ok());
-    let room = len - ring.used();
-    if room > 0 {
-        assert!(env::wakes(1) == 1 && blocked_len(&shared) == 0, "blocked future woken once room exists after enter");
+    env::skip_wake_blocked_futures();
+    let res = shared.enter(kani::any(), kani::any(), if kani::any() { Some(Duration::ZERO) } else { None });
+    let calls = unsafe { env::E.wbf_calls };
+    if ret >= 0 {
+        assert!(matches!(res, Ok(n) if n == ret as u32));
+        assert!(calls == 1, "successful kernel entry => blocked futures are given a chance");
+        assert!(env::evn() == 1 && env::evat(0).0 == env::EV_ENTER, "after the system call");
+    } else if errno == libc::ETIME || errno == libc::EINTR {
+        assert!(matches!(res, Ok(0)), "timeout / interruption are not errors");
+        assert!(calls == 0);
     } else {
-        assert!(env::wakes(1) == 0 && blocked_len(&shared) == 1, "still registered while full");
+        assert!(matches!(&res, Err(e) if e.raw_os_error() == Some(errno)));
+        assert!(calls == 0);
     }
-    kani::cover!(room > 0 && consume > 0, "kernel made room");
-    kani::cover!(room == 0, "still full");
+    std::mem::forget(res);
+    kani::cover!(ret > 0, "submitted");
+    kani::cover!(ret == -1 && errno == libc::ETIME, "timed out");
+    kani::cover!(ret == -1 && errno == libc::EBUSY, "hard error");
 }
